@@ -159,10 +159,10 @@ func cmdCheck(args []string) int {
 	}
 	genS := time.Since(t0).Seconds() - loadS
 
-	timeout := 10 * time.Second
+	timeout := 30 * time.Second
 	cacheOn := true
 	if *tier == "thorough" {
-		timeout = 60 * time.Second
+		timeout = 120 * time.Second
 		cacheOn = false
 	}
 	solver := vc.NewSolver(filepath.Join(*verif, "out"), cacheOn, timeout)
